@@ -406,8 +406,8 @@ fn jtoken_to_runtime_object(
                 ))));
             }
 
-            // Used when serialising save state only
-            if prop == "originalChoicePath" {
+            // Used when serialising save state only (a knot of that name has an array here)
+            if prop == "originalChoicePath" && !matches!(prop_value, JsonValue::Array) {
                 return Ok(ArrayElement::RTObject(jobject_to_choice(tok, &prop_value)?));
             }
 
